@@ -19,6 +19,32 @@ import (
 	"pgregory.net/rapid"
 )
 
+// c08LookAlikes doubles one blank inside a string literal and inside a multi-word keyword of text.
+func c08LookAlikes(text string) []string {
+	var out []string
+	// inside a string literal: find a blank between two quotes on one line
+	inString := false
+	for i := 0; i < len(text); i++ {
+		switch text[i] {
+		case '"':
+			inString = !inString
+		case '\n':
+			inString = false
+		case ' ':
+			if inString {
+				out = append(out, text[:i]+" "+text[i:])
+				i = len(text)
+			}
+		}
+	}
+	for _, kw := range []string{"allowing overdraft up to", "allowing unbounded overdraft"} {
+		if i := strings.Index(text, kw); i >= 0 {
+			out = append(out, text[:i]+strings.Replace(kw, " ", "  ", 1)+text[i+len(kw):])
+		}
+	}
+	return out
+}
+
 // compareWithModel returns "" when implementation and reference agree.
 func compareWithModel(c *numgen.Case, ref *numgen.Result, impl implResult) (sig, msg string) {
 	if impl.Class == "panic" {
@@ -338,6 +364,21 @@ func TestC08(t *testing.T) {
 					violation(rt, c, "C08/cache-other-bindings", "after the cached program served other bindings, the original bindings behave differently: %s", d)
 				}
 				return
+			}
+			// look-alikes: texts that differ from this one only by the length of a run of blanks inside a token
+			// (a string literal, a multi-word keyword) are other programs -- or no programs at all -- and the
+			// cache, warm with this text, must treat them as such
+			for _, la := range c08LookAlikes(cs.Text) {
+				freshLA := runImpl(la, cs.Env, nil)
+				cachedLA := runImpl(la, cs.Env, cc.Compile)
+				c.Label("cache:look-alike")
+				if d := diffImpl(freshLA, cachedLA); d != "" {
+					if !c.IsKnown("C08/cache-look-alike") {
+						rt.Logf("cached text:\n%s\nlook-alike:\n%s\nenv: %s", cs.Text, la, numgen.EnvString(cs.Env))
+						violation(rt, c, "C08/cache-look-alike", "a text that differs from a cached one only by blanks inside a token is served the cached program: %s", d)
+					}
+					return
+				}
 			}
 			// two compilations of the same text are the same program
 			p1, e1 := compiler.Compile(cs.Text)
